@@ -67,5 +67,13 @@ Cfg6 ==
       t2 \in {M("before_STOP_ACTIVITY", 0), M("leave_RUNNING", 0)},
       c1 \in BOOLEAN, f \in SUBSET {"h1"},
       o \in {{"h2"}, {}} }     \* (h2 fails the first time only / every time: then the request through the API is cancelled as well)
-CfgAll == Cfg2Valid \cup Cfg3Valid \cup Cfg4 \cup Cfg5 \cup Cfg6
+\* a STOP that completes (tasks stopped, CONFIGURED) but reports the failure of a critical hook at a negative weight of
+\* after_STOP_ACTIVITY - requested through the API or from inside the core - watched by a hook at after_STOP_ACTIVITY+0
+Cfg7 ==
+  { [trig |-> [h \in {"h1", "h2"} |-> IF h = "h1" THEN M("after_STOP_ACTIVITY", -1) ELSE M("after_STOP_ACTIVITY", 0)],
+     await |-> [h \in {"h1", "h2"} |-> IF h = "h1" THEN M("after_STOP_ACTIVITY", -1) ELSE M("after_STOP_ACTIVITY", 0)],
+     crit |-> [h \in {"h1", "h2"} |-> IF h = "h1" THEN c1 ELSE FALSE],
+     fails |-> f, plan |-> <<"START_ACTIVITY", "STOP_ACTIVITY">>, bodyfails |-> {}, teardown |-> TRUE, quiet |-> q, once |-> {}] :
+      c1 \in BOOLEAN, f \in SUBSET {"h1"}, q \in {{}, {2}} }
+CfgAll == Cfg2Valid \cup Cfg3Valid \cup Cfg4 \cup Cfg5 \cup Cfg6 \cup Cfg7
 =============================================================================
